@@ -130,9 +130,23 @@ func (e *kvElection) checkKeyAndReelect(ctx context.Context) {
 				zap.String("new_leader_id", newLeaderID),
 			)...,
 		)
-		e.leaderID.Store(newLeaderID)
-		e.revision.Store(entry.Revision())
+		e.adoptLeader(newLeaderID, entry.Revision())
 	}
+}
+
+// adoptLeader records what a follower has learnt about the record's owner and revision.
+// It does nothing when this instance leads: the test and the two stores form one critical
+// section with becomeLeader, so that follower bookkeeping which was overtaken by the
+// instance's own election (between its leadership test and its stores) cannot replace
+// the revision the new term's refreshes go against.
+func (e *kvElection) adoptLeader(id string, rev uint64) {
+	e.mu.Lock()
+	defer e.mu.Unlock()
+	if e.isLeader.Load() {
+		return
+	}
+	e.leaderID.Store(id)
+	e.revision.Store(rev)
 }
 
 // handleWatchEvent processes watch events and triggers re-election when the key is deleted
@@ -198,12 +212,10 @@ func (e *kvElection) handleWatchEvent(entry Entry) {
 				zap.Uint64("revision", entry.Revision()),
 			)...,
 		)
-		e.leaderID.Store(newLeaderID)
-		e.revision.Store(entry.Revision())
+		e.adoptLeader(newLeaderID, entry.Revision())
 		return
 	}
-	e.leaderID.Store(newLeaderID)
-	e.revision.Store(entry.Revision())
+	e.adoptLeader(newLeaderID, entry.Revision())
 
 	// Check if we should attempt priority takeover
 	if e.cfg.AllowPriorityTakeover && e.cfg.Priority > payload.Priority {
